@@ -1,5 +1,6 @@
 import BiotiteModel.Proofs.C07File
 import BiotiteModel.Gen.C07
+import BiotiteModel.Gen.C07Logic
 /-!
 # C07 — PDB files round-trip structures and never emit shifted columns: property theorems
 
@@ -757,5 +758,95 @@ theorem C07_gen_ascii :
     asciiLastLetterUpper < asciiFirstLetterLower ∧ radixFactors = ["10", "26", "26-10"] := by decide
 
 end Gen
+
+
+/-! ## tighter tie (pass 7): guards, literals, step order, defaults and error classes regenerated from the source
+
+`Gen/C07Logic.lean` is regenerated by `gen_logic()` (Python `ast` for file.py / convert.py / filter.py, the code lines of the five
+functions of hybrid36.pyx).  Each theorem states: regenerated fact = what the hand-written model was written against, together
+with an evaluation of the model at the boundary the fact decides. -/
+section Logic
+/-- writer: record names, the wrap `np.where(id > 0, (id - 1) % MAX + 1, id)`, default texts, atom-name alignment rule, charge
+text, the stack test, `ENDMDL`, the carriable-bond filter (four disjuncts, hetero ∧ ¬solvent), the solvent list, int64
+normalisation, CONECT layout; and the model at those boundaries -/
+theorem C07_gen_writer_logic :
+    BiotiteModel.Gen.C07Logic.recordNames = ["HETATM", "ATOM"] ∧
+    BiotiteModel.Gen.C07Logic.atomWrap = ["id>0", "(id-1)%_PDB_MAX_ATOMS+1", "id"] ∧
+    BiotiteModel.Gen.C07Logic.resWrap = ["id>0", "(id-1)%_PDB_MAX_RESIDUES+1", "id"] ∧
+    BiotiteModel.Gen.C07Logic.defaultTexts = [" ", "  0.00", "  1.00", "  "] ∧
+    BiotiteModel.Gen.C07Logic.alignRule = ["len(elem)==1andlen(atm)<4", " {}"] ∧
+    BiotiteModel.Gen.C07Logic.chargeText = ["charge>0", "str(np.abs(charge))+'+'", "charge<0", "str(np.abs(charge))+'-'", "''"] ∧
+    BiotiteModel.Gen.C07Logic.isStack = "coords.shape[0]>1" ∧
+    BiotiteModel.Gen.C07Logic.endmdl = "ENDMDL" ∧
+    BiotiteModel.Gen.C07Logic.carriable = ["np.isin(bond_array[:,0],hetero_indices)", "np.isin(bond_array[:,1],hetero_indices)", "array.res_id[bond_array[:,0]]!=array.res_id[bond_array[:,1]]", "array.chain_id[bond_array[:,0]]!=array.chain_id[bond_array[:,1]]"] ∧
+    BiotiteModel.Gen.C07Logic.heteroIndices = "np.where(array.hetero&~filter_solvent(array))[0]" ∧
+    BiotiteModel.Gen.C07Logic.int64Casts = ["array.atom_id", "array.get_annotation(category)"] ∧
+    BiotiteModel.Gen.C07Logic.solventList = ["HOH", "SOL"] ∧
+    BiotiteModel.Gen.C07Logic.conectPerRecord = 4 ∧
+    BiotiteModel.Gen.C07Logic.conectParts = [["CONECT", "{>5}"], ["{>5}"]] ∧
+    -- the model at the boundaries these literals decide
+    wrapId 99999 0 = 0 ∧ wrapId 99999 1 = 1 ∧ wrapId 99999 99999 = 99999 ∧ wrapId 99999 100000 = 1 ∧ wrapId 99999 (-5) = -5 ∧
+    wrapId 9999 10000 = 1 ∧
+    BiotiteModel.Gen.C07Logic.solventList.map String.toList = solventNames ∧
+    BiotiteModel.Gen.C07Logic.endmdl.toList = endmdl ∧
+    chargeText 2 = "2+".toList ∧ chargeText (-1) = "1-".toList ∧ chargeText 0 = [] ∧
+    chunk4 [1, 2, 3, 4, 5] = [[1, 2, 3, 4], [5]] ∧ BiotiteModel.Gen.C07Logic.conectPerRecord = 4 := by
+  decide
+
+/-- reader: record prefixes, padding to 80, the HETATM test, charge decoding (`"+-"`, blank → `"0"`, `[::-1]`), CONECT columns
+`line[6:11]`, `range(11, 31, 5)`, the `-1` initial value of the id map, altloc modes, extra fields, the model-index guards in
+their order, the record filters, the "no altloc" ids, the occupancy loop (`highest = -1.0`, strict `>`), `sorted(set(…))` -/
+theorem C07_gen_reader_logic :
+    BiotiteModel.Gen.C07Logic.prefixes = [("index", ["ATOM|HETATM", "MODEL"]), ("get_structure", ["CRYST1"]), ("get_bonds", ["CONECT"])] ∧
+    BiotiteModel.Gen.C07Logic.padWidth = 80 ∧
+    BiotiteModel.Gen.C07Logic.heteroTest = ["Eq", "HETATM"] ∧
+    BiotiteModel.Gen.C07Logic.chargeSigns = "+-" ∧
+    BiotiteModel.Gen.C07Logic.chargeBlank = ["charge=='  '", "0"] ∧
+    BiotiteModel.Gen.C07Logic.chargeReversed = "::-1" ∧
+    BiotiteModel.Gen.C07Logic.conectRange = [11, 31, 5] ∧
+    BiotiteModel.Gen.C07Logic.conectSlices = [["6", "11"], ["i", "i+5"]] ∧
+    BiotiteModel.Gen.C07Logic.bondMapInit = "-1" ∧
+    BiotiteModel.Gen.C07Logic.altlocModes = ["occupancy", "first", "all"] ∧
+    BiotiteModel.Gen.C07Logic.extraFields = ["atom_id", "charge", "occupancy", "b_factor"] ∧
+    BiotiteModel.Gen.C07Logic.modelIndex = ["model==0", "model<-last_model", "model<last_model", "model==last_model", "last_model+model+1ifmodel<0elsemodel"] ∧
+    BiotiteModel.Gen.C07Logic.modelFilters = ["(self._atom_line_i>=self._model_start_i[model-1])&(self._atom_line_i<self._model_start_i[model])", "self._atom_line_i>=self._model_start_i[model-1]"] ∧
+    BiotiteModel.Gen.C07Logic.altlocNoneFirst = [".", "?", " ", ""] ∧
+    BiotiteModel.Gen.C07Logic.altlocNoneOccupancy = [".", "?", " ", ""] ∧
+    BiotiteModel.Gen.C07Logic.altlocBest = ["-1.0", "Gt:highest"] ∧
+    BiotiteModel.Gen.C07Logic.altlocIdOrder = "sorted(set(letter_altloc_ids))" ∧
+    noAlt '.' = true ∧ noAlt '?' = true ∧ noAlt ' ' = true ∧ noAlt 'A' = false ∧ noAlt '1' = false ∧
+    (bestId [] []).1 = -100 ∧ sortedIds ['b', 'A', 'b', 'a'] = ['A', 'a', 'b'] ∧
+    parseCharge "1+".toList = some (.ok 1) ∧ parseCharge "-2".toList = some (.ok (-2)) ∧ parseCharge "  ".toList = some (.ok 0) ∧
+    selectModel [] 0 = .error .valueError := by
+  decide
+
+/-- the compatibility check: every guard in source order (comparison operators and bounds included), the two tests of
+`_check_number_columns` (finiteness first, then `n_required > n_columns`), and the exception class of every `raise` -/
+theorem C07_gen_check_logic :
+    BiotiteModel.Gen.C07Logic.checkGuards = ["hybrid36", "'atom_id'inannot_categories", "max_atom_id>max_atoms", "(array.res_id>max_residues).any()", "nothybrid36", "np.isnan(array.coord).any()", "any([len(name)>1fornameinarray.chain_id])", "any([len(name)>3fornameinarray.res_name])", "any([len(name)>4fornameinarray.atom_name])", "any([len(code)>1forcodeinarray.ins_code])", "any([len(element)>2forelementinarray.element])", "'b_factor'inannot_categories", "'occupancy'inannot_categories", "array.boxisnotNone", "'charge'inannot_categories", "min_atom_id<-9999", "(array.res_id<-999).any()", "n_charge_digits>1"] ∧
+    BiotiteModel.Gen.C07Logic.numberCheck = ["notnp.isfinite(values).all()", "n_required>n_columns"] ∧
+    BiotiteModel.Gen.C07Logic.raises = [("_check_pdb_compatibility", ["BadStructureError"]), ("_check_number_columns", ["BadStructureError"]), ("_get_atom_record_indices_for_model", ["ValueError"]), ("_get_model_length", ["InvalidFileError"]), ("_get_bonds", ["InvalidFileError"]), ("get_structure", ["ValueError"])] := by
+  decide
+
+/-- default argument values at both entry levels (method and package function) and what the wrappers forward -/
+theorem C07_gen_defaults :
+    BiotiteModel.Gen.C07Logic.defaults = [("PDBFile.get_structure", [("model", "None"), ("altloc", "'first'"), ("extra_fields", "[]"), ("include_bonds", "False")]), ("PDBFile.set_structure", [("array", "<required>"), ("hybrid36", "False")]), ("PDBFile.get_coord", [("model", "None")]), ("PDBFile.get_b_factor", [("model", "None")]), ("pdb.get_structure", [("pdb_file", "<required>"), ("model", "None"), ("altloc", "'first'"), ("extra_fields", "[]"), ("include_bonds", "False")]), ("pdb.set_structure", [("pdb_file", "<required>"), ("array", "<required>"), ("hybrid36", "False")])] ∧
+    BiotiteModel.Gen.C07Logic.wrapperForwards = [("get_structure", ["model", "altloc", "extra_fields", "include_bonds"]), ("set_structure", ["array", "hybrid36"])] := by
+  decide
+
+/-- hybrid36.pyx: the code lines (comments, doc strings and message texts removed) of the five functions the Lean model
+`Model/C07H36.lean` transcribes: guards `< 0`, `< 1`, `< 10**length`, `< 26 * 36**(length-1)`, the offsets, `// 36`, `<= _ASCII_LAST_NUMBER` … -/
+theorem C07_gen_h36_logic :
+    BiotiteModel.Gen.C07Logic.pyx_encode_hybrid36 = ["def encode_hybrid36(int number, unsigned int length):", "if number < 0:", "raise ValueError(", ")", "if length < 1:", "raise ValueError(", ")", "cdef int num = number", "if num < 10**length:", "return str(num)", "num -= 10**length", "if num < 26 * 36**(length-1):", "num += 10 * 36**(length-1)", "return _encode_base36(num, length, _ASCII_FIRST_LETTER_UPPER)", "num -= 26 * 36**(length-1)", "if num < 26 * 36**(length-1):", "num += 10 * 36**(length-1)", "return _encode_base36(num, length, _ASCII_FIRST_LETTER_LOWER)", "raise ValueError(", ")"] ∧
+    BiotiteModel.Gen.C07Logic.pyx_encode_base36 = ["cdef str _encode_base36(int number, unsigned int length,", "unsigned int ascii_letter_offset):", "cdef unsigned char ascii_char", "cdef int remaining", "cdef int last", "cdef bytearray char_array = bytearray(length)", "cdef unsigned char[:] char_array_v = char_array", "cdef int i = char_array_v.shape[0] - 1", "while i >= 0:", "remaining = number // 36", "last = number - remaining * 36", "if last < 10:", "char_array_v[i] = last + _ASCII_FIRST_NUMBER", "else:", "char_array_v[i] = last + ascii_letter_offset - 10", "number = remaining", "i -= 1", "return char_array.decode(\"ascii\")"] ∧
+    BiotiteModel.Gen.C07Logic.pyx_decode_hybrid36 = ["def decode_hybrid36(str string):", "cdef int base_value", "cdef unsigned int length", "try:", "return int(string)", "except ValueError:", "pass", "cdef bytes char_array = string.strip().encode(\"ascii\")", "cdef const unsigned char[:] char_array_v = char_array", "length = char_array_v.shape[0]", "if length == 0:", "raise ValueError(\"Cannot parse empty string into integer\")", "if char_array_v[0] >= _ASCII_FIRST_LETTER_UPPER \\", "and char_array_v[0] <= _ASCII_LAST_LETTER_UPPER:", "base_value = _decode_base36(", "char_array_v, _ASCII_FIRST_LETTER_UPPER", ")", "return base_value - 10 * 36**(length-1) + 10**length", "elif char_array_v[0] >= _ASCII_FIRST_LETTER_LOWER \\", "and char_array_v[0] <= _ASCII_LAST_LETTER_LOWER:", "base_value = _decode_base36(", "char_array_v, _ASCII_FIRST_LETTER_LOWER", ")", "return base_value + (26-10) * 36**(length-1) + 10**length", "else:", "raise ValueError(", ")"] ∧
+    BiotiteModel.Gen.C07Logic.pyx_decode_base36 = ["cdef int _decode_base36(const unsigned char[:] char_array_v,", "unsigned int ascii_letter_offset):", "cdef int i", "cdef int number = 0", "cdef unsigned char ascii_code", "for i in range(char_array_v.shape[0]):", "number *= 36", "ascii_code = char_array_v[i]", "if ascii_code <= _ASCII_LAST_NUMBER:", "number += ascii_code - _ASCII_FIRST_NUMBER", "else:", "number += ascii_code - ascii_letter_offset + 10", "return number"] ∧
+    BiotiteModel.Gen.C07Logic.pyx_max_hybrid36_number = ["def max_hybrid36_number(length):", "return 10**length - 1 + 2 * (26 * 36**(length-1))"] ∧
+    encodeH36 (-1) 4 = .error .valueError ∧ encodeH36 5 0 = .error .valueError ∧ encodeH36 9999 4 = .ok "9999".toList ∧
+    encodeH36 10000 4 = .ok "A000".toList ∧ encodeH36 1223055 4 = .ok "ZZZZ".toList ∧ encodeH36 1223056 4 = .ok "a000".toList ∧
+    maxNumber 4 = 2436111 := by
+  decide
+
+end Logic
 
 end BiotiteModel.C07
